@@ -232,7 +232,7 @@ func genProgram(r *rand.Rand, bias string) program {
 		}
 		ns := 1 + r.IntN(8)
 		for s := 0; s < ns; s++ {
-			st := estep{Res: vk.Pick(r, 0, 5, 5, 7, 9, 1000+e*100+s), Err: vk.Pick(r, 0, 0, 1, 1, 2, 3, 4, 5, 6)}
+			st := estep{Res: vk.Pick(r, 0, 5, 5, 7, 9, 1000+e*100+s), Err: vk.Pick(r, 0, 0, 0, 1, 1, 1, 2, 2, 3, 3, 4, 4, 5, 5, 6, 6, 7, 8)}
 			if p.hasShort && r.IntN(4) == 0 {
 				st.Block = true
 			}
